@@ -160,6 +160,8 @@ enum Stmt {
     Delete(bool, Vec<u32>),
     DeleteRel(Vec<RKey>),
     MergeNode(Vec<(Vec<u8>, Vec<(u8, Val)>, Vec<(u8, Val)>, Vec<(u8, Val)>)>),
+    SetRelProp(Vec<(RKey, u8, Val)>),
+    MergeRel(Vec<(RKey, Vec<(u8, Val)>, Vec<(u8, Val)>, Vec<(u8, Val)>)>),
 }
 fn cn(x: u128) -> String { coq_n(x) }
 fn ckv(v: &[(u8, Val)]) -> String { coq_list(v, |(k, x)| format!("({}, {})", cn(*k as u128), x.coq())) }
@@ -177,6 +179,8 @@ impl Stmt {
             Stmt::Delete(d, ids) => format!("UDelete {} {}", coq_bool(*d), coq_list(ids, |i| cn(*i as u128))),
             Stmt::DeleteRel(k) => format!("UDeleteRel {}", coq_list(k, |(s, t, d)| format!("({}, {}, {})", cn(*s as u128), cn(*t as u128), cn(*d as u128)))),
             Stmt::MergeNode(r) => format!("UMergeNode {}", coq_list(r, |(l, p, oc, om)| format!("({}, {}, {}, {})", cls(l), ckv(p), ckv(oc), ckv(om)))),
+            Stmt::SetRelProp(r) => format!("USetRelProp {}", coq_list(r, |((s, t, d), k, v)| format!("(({}, {}, {}), {}, {})", cn(*s as u128), cn(*t as u128), cn(*d as u128), cn(*k as u128), v.coq()))),
+            Stmt::MergeRel(r) => format!("UMergeRel {}", coq_list(r, |((s, t, d), p, oc, om)| format!("(({}, {}, {}), {}, {}, {})", cn(*s as u128), cn(*t as u128), cn(*d as u128), ckv(p), ckv(oc), ckv(om)))),
         }
     }
     fn kind(&self) -> &'static str {
@@ -185,6 +189,7 @@ impl Stmt {
             Stmt::RemoveProp(_) => "remove-prop", Stmt::SetMap(_) => "set-map", Stmt::SetLabels(_) => "set-labels",
             Stmt::RemoveLabels(_) => "remove-labels", Stmt::Delete(true, _) => "detach-delete", Stmt::Delete(false, _) => "delete",
             Stmt::DeleteRel(_) => "delete-rel", Stmt::MergeNode(_) => "merge-node",
+            Stmt::SetRelProp(_) => "set-rel-prop", Stmt::MergeRel(_) => "merge-rel",
         }
     }
 }
@@ -253,6 +258,23 @@ impl Ref {
                     self.next += 1; c += 1;
                 } else {
                     for i in cands { let n = self.nodes.get_mut(&i).unwrap(); for (k, v) in om { pset(&mut n.1, *k, v); } }
+                }
+            },
+            Stmt::SetRelProp(rows) => for (key, k, v) in rows {
+                let existed = pre.rels.get(key).map(|e| e.1.contains_key(k)).unwrap_or(false);
+                if let Some(e) = self.rels.get_mut(key) { pset(&mut e.1, *k, v); }
+                if *v != Val::Null || existed { c += 1; }
+            },
+            Stmt::MergeRel(rows) => for (key, ps, oc, om) in rows {
+                let matched = self.rels.get(key).map(|e| ps.iter().all(|(k, v)| e.1.get(k).map(|w| pv_eq(w, v)).unwrap_or(false))).unwrap_or(false);
+                let e = self.rels.entry(*key).or_insert((0, Props::new()));
+                if matched {
+                    for (k, v) in om { pset(&mut e.1, *k, v); }
+                } else {
+                    e.0 += 1;
+                    for (k, v) in ps { e.1.insert(*k, v.clone()); } // stored as given, nulls included
+                    for (k, v) in oc { pset(&mut e.1, *k, v); }
+                    c += 1;
                 }
             },
         }
@@ -390,7 +412,12 @@ fn gen_stmt(r: &mut Rng, db: &Db, rf: &Ref, deleted_keys: &BTreeSet<RKey>) -> Re
             }
             2 => {
                 let l = LABELS[r.below(3) as usize];
-                (format!("MATCH (n:{l})"), format!("MATCH (n:{l}) RETURN id(n)"))
+                if r.chance(1, 3) {
+                    // WITH prefix (and a pass-through projection)
+                    (format!("MATCH (m:{l}) WITH m AS n"), format!("MATCH (m:{l}) WITH m AS n RETURN id(n)"))
+                } else {
+                    (format!("MATCH (n:{l})"), format!("MATCH (n:{l}) RETURN id(n)"))
+                }
             }
             _ => ("MATCH (n)".to_string(), "MATCH (n) RETURN id(n)".to_string()),
         };
@@ -413,8 +440,14 @@ fn gen_stmt(r: &mut Rng, db: &Db, rf: &Ref, deleted_keys: &BTreeSet<RKey>) -> Re
             (q, Stmt::CreateNode(rows.into_iter().map(|m| (ls.clone(), m)).collect()))
         }
     } else if w < 28 {
-        let (a, b) = (*r.pick(&live), *r.pick(&live));
-        let t = r.below(2) as u8;
+        let (mut a, mut b) = (*r.pick(&live), *r.pick(&live));
+        let mut t = r.below(2) as u8;
+        if !rf.rels.is_empty() && r.chance(1, 3) {
+            // a parallel relationship on an existing key
+            let keys: Vec<RKey> = rf.rels.keys().cloned().collect();
+            let k = *r.pick(&keys);
+            a = k.0; t = k.1; b = k.2;
+        }
         if deleted_keys.contains(&(a, t, b)) { return Ok(None); }
         let ks = distinct_keys(r, 0, 3, &[0, 1]);
         let ps: Vec<(u8, Val)> = ks.iter().map(|k| (*k, gen_val(r, 2))).collect();
@@ -469,6 +502,42 @@ fn gen_stmt(r: &mut Rng, db: &Db, rf: &Ref, deleted_keys: &BTreeSet<RKey>) -> Re
         let rows = read_rows(db, &format!("MATCH (a)-[r:{}]->(b) WHERE id(a) = $a RETURN id(a), id(b)", TYPES[k.1 as usize]), &params)?;
         let ks: Vec<RKey> = rows.iter().filter_map(|row| match (&row[0], &row[1]) { (Value::Int(a), Value::Int(b)) => Some((*a as u32, k.1, *b as u32)), _ => None }).collect();
         (q, Stmt::DeleteRel(ks))
+    } else if w < 93 {
+        // SET on relationship properties: one row per parallel relationship
+        if rf.rels.is_empty() { return Ok(None); }
+        let keys: Vec<RKey> = rf.rels.keys().cloned().collect();
+        let k0 = *r.pick(&keys);
+        params.insert("a", Value::Int(k0.0 as i64));
+        let n = 1 + r.below(2) as usize;
+        let items: Vec<(u8, Val)> = (0..n).map(|_| (r.below(4) as u8, gen_val(r, 3))).collect();
+        let mut parts = vec![];
+        for (j, (k, v)) in items.iter().enumerate() {
+            params.insert(format!("s{j}"), v.qv());
+            parts.push(format!("r.{} = $s{j}", KEYS[*k as usize]));
+        }
+        let rows = read_rows(db, &format!("MATCH (a)-[r:{}]->(b) WHERE id(a) = $a RETURN id(a), id(b)", TYPES[k0.1 as usize]), &params)?;
+        let ks: Vec<RKey> = rows.iter().filter_map(|row| match (&row[0], &row[1]) { (Value::Int(a), Value::Int(b)) => Some((*a as u32, k0.1, *b as u32)), _ => None }).collect();
+        let q = format!("MATCH (a)-[r:{}]->(b) WHERE id(a) = $a SET {}", TYPES[k0.1 as usize], parts.join(", "));
+        (q, Stmt::SetRelProp(ks.iter().flat_map(|key| items.iter().map(move |(k, v)| (*key, *k, v.clone()))).collect()))
+    } else if w < 96 {
+        // MERGE of a relationship between two bound nodes (one row: within one statement the executor
+        // tracks the relationships it created individually, the storage keeps one property map per key)
+        let (mut a, mut b) = (*r.pick(&live), *r.pick(&live));
+        let mut t = r.below(2) as u8;
+        if !rf.rels.is_empty() && r.chance(1, 2) { let keys: Vec<RKey> = rf.rels.keys().cloned().collect(); let k = *r.pick(&keys); a = k.0; t = k.1; b = k.2; }
+        if deleted_keys.contains(&(a, t, b)) { return Ok(None); }
+        let ks = distinct_keys(r, 0, 3, &[0, 1]);
+        let held: Vec<Val> = rf.rels.get(&(a, t, b)).map(|e| e.1.values().cloned().collect()).unwrap_or_default();
+        let ps: Vec<(u8, Val)> = ks.iter().map(|k| (*k, if !held.is_empty() && r.chance(1, 2) { r.pick(&held).clone() } else { gen_val(r, 1) })).collect();
+        let oc: Vec<(u8, Val)> = if r.chance(1, 2) { vec![(2, gen_val(r, 1))] } else { vec![] };
+        let om: Vec<(u8, Val)> = if r.chance(1, 2) { vec![(3, gen_val(r, 2))] } else { vec![] };
+        params.insert("a", Value::Int(a as i64));
+        params.insert("b", Value::Int(b as i64));
+        let mut tail = String::new();
+        if let Some((k, v)) = oc.first() { params.insert("oc", v.qv()); tail.push_str(&format!(" ON CREATE SET r.{} = $oc", KEYS[*k as usize])); }
+        if let Some((k, v)) = om.first() { params.insert("om", v.qv()); tail.push_str(&format!(" ON MATCH SET r.{} = $om", KEYS[*k as usize])); }
+        let q = format!("MATCH (a), (b) WHERE id(a) = $a AND id(b) = $b MERGE (a)-[r:{} {}]->(b){tail}", TYPES[t as usize], map_text(r, &ps, &mut params, "g"));
+        (q, Stmt::MergeRel(vec![((a, t, b), ps, oc, om)]))
     } else {
         // MERGE: pattern keys p0/p1, ON CREATE / ON MATCH keys p2/p3 (disjoint: the executor matches
         // later rows against the snapshot plus the nodes created by earlier rows, not against
@@ -555,17 +624,23 @@ fn main() {
             if d.1.keys().any(|k| !d.0.contains_key(&k.0) || !d.0.contains_key(&k.2)) { what = "dangling relationship after the statement".into(); }
             // 4. a MERGE repeated at once creates nothing
             if is_repeat {
-                if res.as_ref().ok() != Some(&0) || d.0.len() != before.nodes.len() {
+                let nrel = |m: &BTreeMap<RKey, (u32, Props)>| m.values().map(|v| v.0).sum::<u32>();
+                if res.as_ref().ok() != Some(&0) || d.0.len() != before.nodes.len() || nrel(&d.1) != nrel(&before.rels) {
                     what = format!("repeated MERGE created something: reported {:?}, nodes {} -> {}", res, before.nodes.len(), d.0.len());
-                    if let Stmt::MergeNode(rows) = &st {
-                        if rows.iter().any(|row| row.1.iter().any(|(_, v)| matches!(v, Val::Float(b) if f64::from_bits(*b).is_nan()))) { class = Some("K-C12-mergenan"); }
-                    }
+                    let nan = |ps: &Vec<(u8, Val)>| ps.iter().any(|(_, v)| matches!(v, Val::Float(b) if f64::from_bits(*b).is_nan()));
+                    let has_nan = match &st { Stmt::MergeNode(rows) => rows.iter().any(|row| nan(&row.1)), Stmt::MergeRel(rows) => rows.iter().any(|row| nan(&row.1)), _ => false };
+                    if has_nan && dump_eq(&d, &rf) { class = Some("K-C12-mergenan"); }
                 }
             }
             // 5. a stored property is never null
-            if what.is_empty() && d.0.values().any(|n| n.1.values().any(|v| *v == Val::Null)) && !before.nodes.values().any(|n| n.1.values().any(|v| *v == Val::Null)) {
-                what = "a node stores a null property value".into();
-                let from_merge = matches!(&st, Stmt::MergeNode(rows) if rows.iter().any(|row| row.1.iter().any(|(_, v)| *v == Val::Null)));
+            let stored_null = |nodes: &BTreeMap<u32, (BTreeSet<u8>, Props)>, rels: &BTreeMap<RKey, (u32, Props)>| nodes.values().any(|n| n.1.values().any(|v| *v == Val::Null)) || rels.values().any(|e| e.1.values().any(|v| *v == Val::Null));
+            if what.is_empty() && stored_null(&d.0, &d.1) && !stored_null(&before.nodes, &before.rels) {
+                what = "a node or relationship stores a null property value".into();
+                let from_merge = match &st {
+                    Stmt::MergeNode(rows) => rows.iter().any(|row| row.1.iter().any(|(_, v)| *v == Val::Null)),
+                    Stmt::MergeRel(rows) => rows.iter().any(|row| row.1.iter().any(|(_, v)| *v == Val::Null)),
+                    _ => false,
+                };
                 if from_merge && dump_eq(&d, &rf) { class = Some("K-C12-mergenull"); }
             }
             // 6. CREATE / DELETE counts are the size differences (relationships counted with multiplicity)
@@ -574,7 +649,7 @@ fn main() {
                 let (s0, s1) = (size(before.nodes.len(), &before.rels), size(d.0.len(), &d.1));
                 let cnt = *res.as_ref().unwrap() as i64;
                 match &st {
-                    Stmt::CreateNode(_) | Stmt::CreateRel(_) | Stmt::MergeNode(_) if s1 - s0 != cnt => what = format!("count {cnt} but {} entities were created", s1 - s0),
+                    Stmt::CreateNode(_) | Stmt::CreateRel(_) | Stmt::MergeNode(_) | Stmt::MergeRel(_) if s1 - s0 != cnt => what = format!("count {cnt} but {} entities were created", s1 - s0),
                     Stmt::Delete(..) | Stmt::DeleteRel(_) if s0 - s1 != cnt => {
                         what = format!("count {cnt} but {} entities were deleted", s0 - s1);
                         let removed_parallel = before.rels.iter().any(|(k, v)| v.0 > 1 && !d.1.contains_key(k));
@@ -591,7 +666,7 @@ fn main() {
             if res.as_ref().map(|c| *c > 0).unwrap_or(false) { nontrivial.insert(format!("{:?}|{:?}", st, before.nodes.len())); }
             if let Stmt::Delete(..) | Stmt::DeleteRel(_) = &st { for k in before.rels.keys() { if !rf.rels.contains_key(k) { deleted_keys.insert(*k); } } }
             // schedule the immediate repetition of a MERGE (at most once)
-            if let (Stmt::MergeNode(_), false, true) = (&st, is_repeat, res.is_ok()) { pending_repeat = Some((q, params, st)); }
+            if let (Stmt::MergeNode(_) | Stmt::MergeRel(_), false, true) = (&st, is_repeat, res.is_ok()) { pending_repeat = Some((q, params, st)); }
         }
         cw.push(format!("{{| c_steps := [{}] |}}", steps.join("; ")));
     }
